@@ -276,6 +276,84 @@ func (e *env) plant(db string) error {
 	return nil
 }
 
+// baseline brings the shared server back to the state every case starts from (role users active, holding
+// exactly their permission on their home database; data databases loaded) and verifies it; an error means the
+// server must be replaced.
+func (e *env) baseline() error {
+	sys := e.saCtx(defDBn)
+	want := map[string]map[string]uint32{
+		roleUser[roleNone]:  {"db3": 2},
+		roleUser[roleR]:     {"db1": 1},
+		roleUser[roleRW]:    {"db1": 2},
+		roleUser[roleAdmin]: {"db1": 254},
+	}
+	list, _ := e.internals()
+	if list == nil {
+		return fmt.Errorf("no database list")
+	}
+	for _, db := range []string{"db1", "db2", "db3"} {
+		d, err := list.GetByName(db)
+		if err != nil {
+			return fmt.Errorf("database %s: %v", db, err)
+		}
+		if d.IsClosed() {
+			if _, err := e.ic.LoadDatabase(sys, &schema.LoadDatabaseRequest{Database: db}); err != nil {
+				return fmt.Errorf("load %s: %v", db, err)
+			}
+			e.dropSA(db)
+		}
+	}
+	check := func(repair bool) error {
+		ul, err := e.ic.ListUsers(sys, &emptypb.Empty{})
+		if err != nil {
+			return err
+		}
+		seen := map[string]bool{}
+		for _, u := range ul.Users {
+			name := string(u.User)
+			if name == vic2User {
+				e.vic2act = u.Active
+			}
+			w, ok := want[name]
+			if !ok {
+				continue
+			}
+			seen[name] = true
+			if !u.Active {
+				if !repair {
+					return fmt.Errorf("user %s inactive", name)
+				}
+				e.ic.SetActiveUser(sys, &schema.SetActiveUserRequest{Username: name, Active: true})
+			}
+			have := map[string]uint32{}
+			for _, p := range u.Permissions {
+				have[p.Database] = p.Permission
+			}
+			for _, db := range dataDBs {
+				if have[db] == w[db] {
+					continue
+				}
+				if !repair {
+					return fmt.Errorf("user %s holds %d on %s, expected %d", name, have[db], db, w[db])
+				}
+				if w[db] == 0 {
+					e.ic.ChangePermission(sys, &schema.ChangePermissionRequest{Action: schema.PermissionAction_REVOKE, Username: name, Database: db, Permission: have[db]})
+				} else {
+					e.ic.ChangePermission(sys, &schema.ChangePermissionRequest{Action: schema.PermissionAction_GRANT, Username: name, Database: db, Permission: w[db]})
+				}
+			}
+		}
+		if len(seen) != len(want) {
+			return fmt.Errorf("role users missing")
+		}
+		return nil
+	}
+	if err := check(true); err != nil {
+		return err
+	}
+	return check(false)
+}
+
 // ---------------------------------------------------------------- digest
 
 type dbDigest struct {
